@@ -27,11 +27,27 @@ func init() {
 		f1, _ := parseFrame(w[0].data)
 		_ = e.deliver("", []byte(reply(f1.ID)))
 		<-entered
-		_ = e.sendAsync("", dataTransferReq(ver), func(r ocpp.Response, err error) {})
-		w2 := e.waitWrites(1, time.Second)
-		f2, _ := parseFrame(w2[0].data)
-		_ = e.deliver("", []byte(reply(f2.ID))) // r2's outcome waits in the channel: the callback goroutine is busy
-		time.Sleep(2 * time.Millisecond)
+		// one or three further requests are answered while the callback goroutine is busy: their outcomes wait in the channel
+		// (capacity 2; with three the reader itself is blocked on the full channel holding the third)
+		extra := []int{1, 3}[(i/2)%2]
+		var f2 frame
+		for k := 0; k < extra; k++ {
+			_ = e.sendAsync("", dataTransferReq(ver), func(r ocpp.Response, err error) {})
+		}
+		for k := 0; k < extra; k++ {
+			w2 := e.waitWrites(1, time.Second)
+			if len(w2) < 1 {
+				break
+			}
+			f2, _ = parseFrame(w2[0].data)
+			fr := f2
+			if k < 2 {
+				_ = e.deliver("", []byte(reply(fr.ID)))
+			} else {
+				go func() { _ = e.deliver("", []byte(reply(fr.ID))) }() // blocks on the full outcome channel
+			}
+		}
+		time.Sleep(3 * time.Millisecond)
 		old := runtime.GOMAXPROCS(1)
 		e.stop()
 		e.start()
@@ -51,7 +67,7 @@ func init() {
 		case g := <-got:
 			res.Events = 1
 			if !containsStr(g, id3) {
-				res.Violations = append(res.Violations, Violation{Property: "C16", Sig: "restart/foreign-outcome:" + ver, What: fmt.Sprintf("%s: the callback of request %s of the new session received %s (r2 of the stopped session was %s)", ver, id3, g, f2.ID)})
+				res.Violations = append(res.Violations, Violation{Property: "C16", Sig: "restart/foreign-outcome:" + ver, What: fmt.Sprintf("%s: the callback of request %s of the new session received %s (the last request of the stopped session was %s; %d outcomes were waiting when Stop was called)", ver, id3, g, f2.ID, extra)})
 			}
 		case <-time.After(time.Second):
 			res.Violations = append(res.Violations, Violation{Property: "C16", Sig: "restart/callback-lost:" + ver, What: "no callback for the new session's request"})
